@@ -542,7 +542,7 @@ Lemma enter_precommit_polka h r s hb ph b :
   cs_pblock s = Some b -> b_hash b = hb -> b_valid b = true ->
   enter_precommit E h r s =
   (set_rs r SPrecommit
-     (if hashes_to (cs_lblock s) hb then set_locked r (cs_lblock s) (cs_lparts s) s
+     (if hashes_to (cs_lblock s) hb then relock r s
       else set_locked r (Some b) (cs_pparts s) s),
    if is_validator E then [OSignVote PRECOMMIT h r (Some (hb, ph))] else []).
 Proof.
